@@ -125,7 +125,7 @@ def run(ctx):
     mon.attach_fit()
     fit = F.mef.fit_beads_autofluorescence
     path = os.path.join(ctx.tmpdir, 'c02.fcs')
-    nb, nu = (44, 20) if ctx.tier == 'quick' else (1400, 600)
+    nb, nu = (44, 20) if ctx.tier == 'quick' else (5000, 2000)
     ids = [('bal', i) for i in range(nb)] + [('unb', i) for i in range(nu)]
     for cid, rng in ctx.cases(ids):
         mon.cid = cid
